@@ -246,11 +246,12 @@ PROPS["C02"] = {
     "level": "proof",
     "technique": "Verus contracts on the real process_single_spend / compute_coin_id / Coin::coin_id / parse_conditions: coin-id formula over the canonical amount, double-spend exclusion via the spent-coin map, duplicate-output exclusion and exact totals",
     "level_text": "Deductive proof: every accepted spend has a 32-byte parent and puzzle hash and a canonical amount; its coin id is sha256(parent ‖ puzzle hash ‖ canon(amount)) (and Coin::coin_id computes the same formula); the id was not spent before in the bundle (else DoubleSpend); removal_amount grows by exactly the coin amount, addition_amount by exactly the created amounts, no (puzzle hash, amount) is created twice by one spend, u128 totals cannot overflow.",
-    "level_note": "The final conservation test in validate_conditions (additions <= removals, reserved fee <= removals - additions) is proved in unit validate_conds (iff); the puzzle-hash == tree-hash call sites in the drivers are not yet under contract. sha256 uninterpreted; NewCoinSet identity assumed to be (puzzle_hash, amount) as NewCoin's PartialEq/Hash implement it.",
-    "components": [V("conditions_effects"), V("int_encoders"), V("validate_conds")],
+    "level_note": "The final conservation test in validate_conditions (additions <= removals, reserved fee <= removals - additions) is proved in unit validate_conds (iff); in run_spendbundle (unit drivers) the spend recorded for each coin is proved to carry the coin's own parent id, its declared puzzle hash - checked equal to the tree hash of the revealed puzzle - and its amount; run_block_generator2 computes the puzzle hash itself (tree_hash_cached of the reveal). sha256 uninterpreted; NewCoinSet identity assumed to be (puzzle_hash, amount) as NewCoin's PartialEq/Hash implement it.",
+    "components": [V("conditions_effects"), V("int_encoders"), V("validate_conds"), V("drivers")],
     "assumptions": ["Sha256 ghost model", "HashMap<Arc<Bytes32>, usize> / HashSet<NewCoin> insertion semantics (shims/cond_env.rs)"],
     "not_covered": [
-        "drivers: reported puzzle hash is the tree hash of the revealed puzzle (run_block_generator2, run_spendbundle call sites)",
+        "run_block_generator2: that the node handed over as puzzle hash is tree_hash_cached(puzzle reveal) is in the extracted text but not a clause of its contract (the allocator is opaque there)",
+        "that the conditions a puzzle outputs are what its author intended (CLVM execution)",
     ],
 }
 
